@@ -1780,6 +1780,20 @@ class Deb822ParagraphElement(Deb822Element, Deb822ParagraphToStrWrapperMixin, AB
         # type: () -> Deb822ParagraphElement
         return self
 
+    def _ensure_final_newline(self):
+        # type: () -> None
+        """Ensure the last field ends on a newline
+
+        Needed before anything is placed after the last field when the file
+        does not end with a newline.
+        """
+        last_kvpair = None
+        for last_kvpair in self.iter_parts():
+            pass
+        if last_kvpair is not None:
+            cast('Deb822KeyValuePairElement',
+                 last_kvpair).value_element.add_final_newline_if_missing()
+
     def order_last(self, field):
         # type: (ParagraphKey) -> None
         """Re-order the given field so it is "last" in the paragraph"""
@@ -2170,6 +2184,8 @@ class Deb822NoDuplicateFieldsParagraphElement(Deb822ParagraphElement):
             # way
             key = value.field_name
         original_value = self._kvpair_elements.get(key)
+        if original_value is None:
+            self._ensure_final_newline()
         self._kvpair_elements[key] = value
         self._kvpair_order.append(key)
         if original_value is not None:
@@ -2456,6 +2472,7 @@ class Deb822DuplicateFieldsParagraphElement(Deb822ParagraphElement):
                       " in the first place.  Please index-less key or ({key}, 0) if you" \
                       " want to add the field."
                 raise KeyError(msg.format(key=key, index=index))
+            self._ensure_final_newline()
             node = self._kvpair_order.append(value)
             if key not in self._kvpair_elements:
                 self._kvpair_elements[key] = [node]
